@@ -387,8 +387,72 @@ def oracle_case_offset(rng):
                 zero_block=False, offset=True)
 
 
+def oracle_case_sequence(rng):
+    """ONE solver object called repeatedly, for the same and for different block pairs, some of
+    which share a level exactly: such a pair must raise ValueError at EVERY request (also after
+    other pairs were served), the other requests must satisfy the residual equation."""
+    nb = rng.randint(2, 4)
+    sizes = [rng.randint(1, 3) for _ in range(nb)]
+    eigs = []
+    for b in range(nb):
+        lv = [10.0 * b + rng.choice([0.0, 0.5, 1.0, 2.5]) for _ in range(2)]
+        eigs.append([rng.choice(lv) for _ in range(sizes[b])])
+    # plant shared levels between one or two pairs of different blocks
+    for _ in range(rng.randint(1, 2)):
+        p, q = rng.sample(range(nb), 2)
+        eigs[q][rng.randrange(sizes[q])] = eigs[p][rng.randrange(sizes[p])]
+    pairs = [(i, j) for i in range(nb) for j in range(nb)]
+    reqs = []
+    for _ in range(rng.randint(5, 9)):
+        i, j = reqs[-1][:2] if (reqs and rng.random() < 0.4) else rng.choice(pairs)
+        Y = [[rng.uniform(-1, 1) if rng.random() < 0.9 else 0.0 for _ in range(sizes[j])] for _ in range(sizes[i])]
+        if all(y == 0.0 for r in Y for y in r):
+            Y[0][0] = 1.0
+        reqs.append((i, j, Y))
+    return dict(sequence=True, eigs=[[[x, 0.0] for x in e] for e in eigs],
+                reqs=[dict(i=i, j=j, Y=[[[y, 0.0] for y in r] for r in Y]) for i, j, Y in reqs],
+                kind=rng.choice(["dense", "sparse"]), atol=1e-12, i=reqs[0][0], j=reqs[0][1], Y=[], zero_block=False)
+
+
+def oracle_eval_sequence(c):
+    from pymablock.block_diagonalization import solve_sylvester_diagonal
+    E = [np.array([x[0] for x in e]) for e in c["eigs"]]
+    solve = solve_sylvester_diagonal(tuple(E), atol=c["atol"])
+    seen = {}
+    for k, r in enumerate(c["reqs"]):
+        i, j = r["i"], r["j"]
+        Y = np.array([[y[0] for y in row] for row in r["Y"]])
+        Yv = sp.csr_array(Y) if c["kind"] == "sparse" else Y
+        shared = i != j and bool(np.any(np.isclose(E[i].reshape(-1, 1), E[j].reshape(1, -1))))
+        seen[(i, j)] = seen.get((i, j), 0) + 1
+        try:
+            with warnings.catch_warnings():
+                warnings.simplefilter("ignore")
+                V = solve(Yv, (i, j))
+        except ValueError:
+            if shared:
+                continue
+            return "request %d, pair %s: ValueError although the blocks share no level" % (k, (i, j))
+        if shared:
+            return "request %d: blocks %s share a level but the solver returned a value (use number %d of that pair on this solver object)" % (k, (i, j), seen[(i, j)])
+        V = V.toarray() if sp.issparse(V) else np.asarray(V)
+        if V.shape != Y.shape or not np.all(np.isfinite(V)):
+            return "request %d: bad shape or non-finite entries" % k
+        d = E[i].reshape(-1, 1) - E[j].reshape(1, -1)
+        sup = np.abs(d) > c["atol"]
+        res = np.abs(d * V - Y)
+        if np.any(res[sup] > 1e-9 * (1.0 + np.abs(Y).max(initial=0.0))):
+            return "request %d, pair %s: residual %g on the support" % (k, (i, j), res[sup].max())
+        if np.any(V[~sup] != 0):
+            return "request %d: non-zero value where energies coincide within tolerance" % k
+    return None
+
+
 def oracle_case(rng):
-    if rng.random() < 0.3:
+    u = rng.random()
+    if u < 0.25:
+        return oracle_case_sequence(rng)
+    if u < 0.5:
         return oracle_case_offset(rng)
     nb = rng.randint(1, 3)
     sizes = [rng.randint(1, 4) for _ in range(nb)]
@@ -414,6 +478,8 @@ def oracle_case(rng):
 def oracle_eval(c):
     """returns None if fine, else a description."""
     from pymablock.block_diagonalization import solve_sylvester_diagonal
+    if c.get("sequence"):
+        return oracle_eval_sequence(c)
     cplx = any(x[1] != 0 for e in c["eigs"] for x in e) or any(y[1] != 0 for r in c["Y"] for y in r)
     mk = (lambda p: complex(p[0], p[1])) if cplx else (lambda p: p[0])
     E = [np.array([mk(x) for x in e]) for e in c["eigs"]]
